@@ -20,14 +20,14 @@ import (
 // Every schedule within the deviation bound is explored.
 
 type c11SchedCase struct {
-	Kind    string `json:"kind"` // "beside-stalled-reader"
-	Close   string `json:"close"`
+	Kind  string `json:"kind"` // "beside-stalled-reader"
+	Close string `json:"close"`
 	// Pipeline > 0 (kind "pipeline-ladder"): client A is alone, pipelines that many complete
 	// SETs and a partial one in ONE write and ends its stream at once - by half close (then
 	// reads everything) or by full close without having read a single reply, so that every
 	// reply write of the server meets a closed peer.
-	Pipeline int `json:"pipeline,omitempty"`
-	Choices []int  `json:"choices,omitempty"`
+	Pipeline int   `json:"pipeline,omitempty"`
+	Choices  []int `json:"choices,omitempty"`
 }
 
 func c11SchedExplorer(cs c11SchedCase, bound int) *sched.Explorer {
